@@ -299,3 +299,18 @@ Example C13_failure_message_ex :
     fget K_message sf = Some (render_of ex_bad) /\
     fget K_exception tb = Some (VClassName (e_cls ex_exA)) /\ fget K_reason tb = Some (safe_str ex_exA).
 Proof. do 6 eexists. split; [vm_compute; reflexivity|]. split; [reflexivity|]. repeat split. Qed.
+
+(* with a global field named message_type the containment itself is unchanged (the same
+   five messages, the message itself not among them, nothing reported about reports), but
+   every delivered message carries the overriding type: the statements about delivered
+   message_type values need fget K_mtype (globals s) = None *)
+Example C13_failure_contained_global_mtype_ex :
+  fget K_mtype (globals ex_s3g) = Some (VAtom 21%positive) /\
+  map (@length msg) (map d_log (dests (logger_write ex_cfg 0 ex_s3g ex_bad (Some ex_sr)))) = [5; 5; 5] /\
+  (exists d, nth_error (dests (logger_write ex_cfg 0 ex_s3g ex_bad (Some ex_sr))) 0 = Some d /\
+     map (fget K_mtype) (d_log d) = repeat (Some (VAtom 21%positive)) 5 /\
+     map (fget K_traceback) (d_log d) = [Some VTb; None; None; None; None] /\
+     map (fget K_message) (d_log d) =
+       [None; Some (VRender (Some 0) (Some [1%positive])); Some (VRender (Some 0) (Some [1%positive]));
+        Some (render_of ex_bad); Some (VRender (Some 3) (Some [1%positive]))]).
+Proof. split; [reflexivity|]. split; [reflexivity|]. eexists. split; [vm_compute; reflexivity|]. repeat split. Qed.
